@@ -475,6 +475,16 @@ def order_source(g: CFG, n: Node, e: ast.AST, fn_has_param, depth: int = 24) -> 
             return {f"reordered:{ast.unparse(e)[:60]}"}
         if isinstance(f, ast.Attribute) and f.attr in ("items", "keys", "values", "copy") and not e.args:
             return order_source(g, n, f.value, fn_has_param, depth - 1)
+        if isinstance(f, ast.Name) and f.id == "map" and len(e.args) == 2:
+            return order_source(g, n, e.args[1], fn_has_param, depth - 1)
+        if isinstance(f, ast.Name) and f.id == "zip" and e.args and not any(isinstance(a, ast.Starred) for a in e.args):
+            srcs = [order_source(g, n, a, fn_has_param, depth - 1) for a in e.args]
+            srcs = [s_ for s_ in srcs if s_ != {"repeat"}]
+            if srcs and all(s_ == srcs[0] for s_ in srcs):
+                return srcs[0]
+            return {f"unknown:zip of {[sorted(s_) for s_ in srcs]}"[:80]}
+        if isinstance(f, ast.Name) and f.id == "repeat":
+            return {"repeat"}
         if isinstance(f, ast.Attribute) and f.attr in _ORDER_MAP_METHODS and e.args:
             # batch call answering element-wise, in the order of its (list) argument: fs.info([p1, p2, ...])
             return order_source(g, n, e.args[0], fn_has_param, depth - 1)
